@@ -293,8 +293,10 @@ Proof.
     + simpl. msplit; auto using mnext_refl; lia.
     + destruct L as [Q C]. destruct e.
       * destruct Q as (N1 & L1 & E1 & H1 & D1 & G1). simpl. msplit; auto. lia.
-      * apply nm_eval_next_ok; auto.
-        unfold cflag. rewrite Hp, andb_false_r. intros X; discriminate X.
+      * destruct (vequal NM x1 (vsub NM x1 (vmuls NM t1' al))) eqn:Hv.
+        -- destruct Q as (N1 & L1 & E1 & H1 & D1 & G1). simpl. msplit; auto. lia.
+        -- apply nm_eval_next_ok; auto.
+           unfold cflag. rewrite Hp, andb_false_r. intros X; discriminate X.
   - pose proof (nm_backtrack_ok fuel x1 t1 tr) as B.
     destruct (nm_backtrack NM NCS P fuel x1 t1 tr) as [|tr1|x2 tr1]; simpl in B.
     + simpl. msplit; auto using mnext_refl; lia.
